@@ -40,6 +40,7 @@ func main() {
 		t1 := time.Now()
 		runFixtures(f, res, drv)
 		drv.Close()
+		runClassFixtures(f, res)
 		res.SetExtra("phase_seconds", map[string]float64{"hash_correspondence": t1.Sub(t0).Seconds(), "fixtures": time.Since(t1).Seconds()})
 	}
 
@@ -74,7 +75,11 @@ func main() {
 			checkpoint(f, res)
 		}
 		var tasks []chainTask
+		chains := []int{100} // one chain of the pre-0.13.2 Pedersen format
 		for c := 0; c < nChains; c++ {
+			chains = append(chains, c)
+		}
+		for _, c := range chains {
 			for _, dstNew := range []bool{false, true} {
 				for slot := 0; slot < tamperSlots(f); slot++ {
 					tasks = append(tasks, chainTask{Chain: c, SrcNew: c%2 == 1, DstNew: dstNew, Slot: slot, Risky: risky})
